@@ -47,7 +47,7 @@ def unsqueeze(t, dim):
     if not hasattr(dim, "__len__"):
         dim = [dim]
 
-    idx = [slice(None) for n in range(t.dim() + len(dim))]
+    idx = [slice(None) for n in range(len(t.shape) + len(dim))]
     for d in dim:
         idx[d] = None
     return t[tuple(idx)]
@@ -203,10 +203,11 @@ def unbind(t, dim):
     :return: a list of :class:`Tensor`, as many as `t.shape[dim]`
     """
 
+    dim = int(dim)  # Also keeps a 0-d array passed by the caller from being updated in place
     if dim < 0:
-        dim += t.dim()
+        dim = dim + len(t.shape)  # Counted over all axes (for a batch tensor, t.dim() leaves out the batch axis)
     return [
-        t[tuple([slice(None)] * dim + [sl] + [slice(None)] * (t.dim() - 1 - dim))]
+        t[tuple([slice(None)] * dim + [sl] + [slice(None)] * (len(t.shape) - 1 - dim))]
         for sl in range(t.shape[dim])
     ]
 
